@@ -59,6 +59,8 @@ def solve_continuum(kind, dim, elem, A, b, moves, dynamic=False):
         f0 = np.array([1.0, -2.0, 0.5])[:dim]
         sim.add_dirichlet(fixed, list(L @ d0), unk)
         sim.add_neumann(loaded, list(L @ f0), unk)
+        # a pressure is a scalar: its direction is the normal of the moved boundary, so it needs no transformation at all
+        sim.add_pressureLoad(loaded, 0.7)
         if dynamic:
             sim.Solver_Set_Hyperbolic_Algorithm(dt=0.1)
         u = sim.Solve().copy()
